@@ -120,6 +120,7 @@ func c05CheckText(a *ChildArgs, idBase string, t lexgen.Text) {
 			ok = false
 		}
 	}
+	a.Rec.Sample("positions", 3, map[string]interface{}{"text": trunc(t.S, 200), "tokens_checked": len(t.Lexemes), "comments_checked": len(t.Comments), "last_token_at": fmt.Sprintf("%d:%d", toks[n-1].Start.Line, toks[n-1].Start.Column)})
 	// EOF: at the end of the text
 	eof := toks[n-1]
 	el, ec := len(lines), lines[len(lines)-1].end-lines[len(lines)-1].start+1
